@@ -202,6 +202,20 @@ func genC17(t *rapid.T) *C17Case {
 			break
 		}
 	}
+	if rapid.IntRange(0, 2).Draw(t, "longDesc") == 0 {
+		// long description of the innermost active command, shown below the usage line
+		var sb strings.Builder
+		sb.WriteString("MkLq")
+		for i := rapid.IntRange(1, 20).Draw(t, "ldWords"); i > 0; i-- {
+			sb.WriteString([]string{" ", " ", " ", "\n", "  "}[rapid.IntRange(0, 4).Draw(t, "ldSep")])
+			maxLen := 12
+			if rapid.IntRange(0, 9).Draw(t, "ldLong") == 0 {
+				maxLen = 90
+			}
+			sb.WriteString(c17Word(t, "w", 1, maxLen))
+		}
+		cur.LongDesc = sb.String()
+	}
 	switch weighted(t, "widthClass", []int{1, 3, 3, 2, 1}) {
 	case 0:
 		c.Width = 0
@@ -400,6 +414,42 @@ func c17Oracle(c *C17Case) string {
 			if len(w) != utf8.RuneCountInString(w) {
 				nonASCII = true
 			}
+		}
+	}
+	// long description of the innermost active command
+	{
+		inner := &c.D.Root
+		for _, id := range c.Active {
+			for i := range inner.Cmds {
+				if inner.Cmds[i].ID == id {
+					inner = &inner.Cmds[i]
+					break
+				}
+			}
+		}
+		if inner.LongDesc != "" {
+			start := -1
+			for li, l := range lines {
+				if strings.HasPrefix(l, "MkLq") {
+					start = li
+					break
+				}
+			}
+			if start < 0 {
+				return fmt.Sprintf("width %d: long description of the active command not found at the start of a line\n%s", width, out)
+			}
+			var text []string
+			for lj := start; lj < len(lines) && strings.TrimSpace(lines[lj]) != "" || (lj > start && lj < len(lines) && strings.HasSuffix(lines[lj-1], "-") && strings.TrimSpace(lines[lj]) == ""); lj++ {
+				if width >= 10 && utf8.RuneCountInString(lines[lj]) > width {
+					return fmt.Sprintf("width %d: long description line %q is %d characters long\n%s", width, lines[lj], utf8.RuneCountInString(lines[lj]), out)
+				}
+				text = append(text, lines[lj])
+			}
+			joined := c17HyphenBreak.ReplaceAllString(strings.Join(text, "\n"), "")
+			if got, want := strings.Fields(joined), strings.Fields(inner.LongDesc); !strSliceEq(got, want) {
+				return fmt.Sprintf("width %d: wrapped long description does not contain the original words in order:\n got  %q\n want %q\n%s", width, got, want, out)
+			}
+			st.Label("command long description checked")
 		}
 	}
 	if len(rows) == 0 {
